@@ -66,12 +66,13 @@ def check_case(ctx, case):
     if case.get('inside'):
         tags.append('inside_shape')
     ctx.note(key_of(case['rows']), bool(qs) and bool(b.els), *tags)
-    want = b.els + exp
-    ua, ub = multiset_match(want, a.els, TOL)
+    # (compared element by element; a quoted text inside a shape may change how the output is grouped, not what is drawn)
+    want = b.leaves() + exp
+    ua, ub = multiset_match(want, a.leaves(), TOL)
     if ua or ub:
         # an empty quoted string may yield no element
-        want2 = b.els + [e for e in exp if e[4] != '']
-        ua2, ub2 = multiset_match(want2, a.els, TOL)
+        want2 = b.leaves() + [e for e in exp if e[4] != '']
+        ua2, ub2 = multiset_match(want2, a.leaves(), TOL)
         if ua2 or ub2:
             return 'quoted text is not verbatim / displaces or draws something: missing %s; extra %s' % (
                 [show_el(e) for e in ua[:3]], [show_el(e) for e in ub[:3]])
